@@ -48,6 +48,14 @@ func FloatNew(metatype *Type, args Tuple, kwargs StringDict) (Object, error) {
 }
 
 func (a Float) M__str__() (Object, error) {
+	switch f := float64(a); {
+	case math.IsNaN(f):
+		return String("nan"), nil
+	case math.IsInf(f, 1):
+		return String("inf"), nil
+	case math.IsInf(f, -1):
+		return String("-inf"), nil
+	}
 	if i := int64(a); Float(i) == a {
 		if i == 0 && math.Signbit(float64(a)) {
 			return String("-0.0"), nil
